@@ -33,7 +33,14 @@ MUTANTS = [
      "            elif self.ipnet.prefixlen >= 31:\n                self._type = \"host\"", "C02 C06"),
     ("M20", "helpers.py", "        if not 0 <= start <= SEQUENCE_MAX:", "        if not 0 <= start <= SEQUENCE_MAX + 1:", "C10"),
     ("M21", "helpers.py", "        if sequence > SEQUENCE_MAX:", "        if sequence > SEQUENCE_MAX + 1:", "C10"),
-    ("M30", "port.py", "            return [ports[0] - 1]", "            return [ports[0]]", "C08"),
+    ("M30", "port.py", "            return [ports[0] - 1] if ports else [65535]", "            return [ports[0]] if ports else [65535]", "C08"),
+    ("M31", "port.py", "            return [ports[-1] + 1] if ports else [1]", "            return [ports[1] + 1] if ports else [1]", "C08"),
+    ("M32", "port.py", "        ports = sorted(ports)\n        if operator == \"eq\":", "        if operator == \"eq\":", "C08"),
+    ("M33", "port.py", "        return sorted(ports)\n", "        return ports\n", "C08 C06"),
+    ("M34", "port.py", "            items = [i for i in all_ports if i > items[0]]", "            items = [i for i in all_ports if i >= items[0]]", "C08 C01"),
+    ("M35", "helpers.py", "            if item_next - item <= 1:  # range", "            if item_next - item <= 2:  # range", "C08"),
+    ("M36", "helpers.py", "    ports_ = [i for i in ports_calc if 1 <= i <= 65535]", "    ports_ = [i for i in ports_calc if 1 <= i < 65535]", "C08"),
+    ("M37", "port.py", "            return [ports[0] - 1] if ports else [65535]", "            return [ports[0] - 1]", "C08"),
 ]
 
 
